@@ -6,12 +6,25 @@
 //   - the channel skeleton of selected functions as control-flow graphs over Raft.Chan.Node (data erased: every
 //     data-dependent branch becomes a nondeterministic choice; callees named in the target's inline list are inlined, any
 //     other callee that can reach a channel operation is listed in `opaqueCalls`);
+//
 //   - a census of every channel operation (make/send/recv/close/nil) in the package per channel name and function;
+//
 //   - timing facts: the Go expressions that set the retry back-off bound, the idle heartbeat period and the election
 //     timeout, translated to Lean functions of the heartbeat timeout.
 //
+//   - multi-goroutine targets (`pipeTargets`: one pipelining episode of replication.replicate): `go func(){…}()` becomes a
+//     process of its own started by a spawn signal (the spawner closes a private `start:` channel), `defer func(){…}()` runs at
+//     every return (`if v := recover(); v != nil` is dead there; variant P: declared panic sites may jump into the deferred
+//     function with the recover branch taken), `for range ch` becomes `recvOrClosed`, local channels (`x := make(chan …)`)
+//     get their own names (`function.variable@call-site`), channel parameters of inlined callees are bound to the channel the
+//     argument denotes, closures bound to local variables are inlined at every call, one error field of the messages of a
+//     local channel and a few `x != nil` conditions are tracked (the rest of the block is compiled once per truth value).
+//
 // The translator fails closed: a construct it does not understand inside a target is an error (exit 2, message on stderr),
-// which ./check reports as a broken obligation.
+// which ./check reports as a broken obligation. For the multi-goroutine targets this includes: a local channel that escapes
+// (any use that is not a channel operation, len/cap, or an argument bound to a channel parameter of an inlined function), a
+// `make(chan)` or go statement that can run twice in one episode (it lies on a cycle of the control-flow graph), a defer that
+// is not at the top level of its function, recover() outside the supported pattern, a channel operation before the episode.
 package main
 
 import (
@@ -52,13 +65,17 @@ type comm struct {
 	next int
 }
 type node struct {
-	kind  string // comm close choice halt
+	kind  string // comm close choice halt range
 	cases []comm
 	dflt  int
 	ch    int
 	next  int
+	next2 int // range: where the loop exits (channel closed and empty)
 	nexts []int
 	note  string
+	once  string // non-empty: this node must not lie on a cycle of its CFG (a make(chan) / go site)
+	mark  string // non-empty: a marker node (kept by compress)
+	line  int    // source line of the statement the node was made for
 }
 
 type pkg struct {
@@ -114,6 +131,17 @@ func load(dir string) *pkg {
 			os.Exit(2)
 		}
 		p.files = append(p.files, f)
+		for _, im := range f.Imports {
+			nm := ""
+			if im.Name != nil {
+				nm = im.Name.Name
+			} else if path, err := strconv.Unquote(im.Path.Value); err == nil {
+				nm = path[strings.LastIndex(path, "/")+1:]
+			}
+			if nm != "" && nm != "_" && nm != "." {
+				importNames[nm] = true
+			}
+		}
 		for _, d := range f.Decls {
 			if fd, ok := d.(*ast.FuncDecl); ok && fd.Body != nil {
 				key := fd.Name.Name
@@ -155,10 +183,12 @@ func chanName(e ast.Expr) string {
 // effects of an expression / simple statement, in evaluation order
 
 type effect struct {
-	recv string // channel name, or ""
-	call string // callee name, or ""
-	isCl bool   // close(ch)
-	pos  token.Pos
+	recv  string        // channel name (by last selector), or ""
+	chX   ast.Expr      // the channel expression (resolved against the scope by the builder)
+	call  string        // callee name, or ""
+	callX *ast.CallExpr // the call (arguments are needed when the callee is inlined)
+	isCl  bool          // close(ch)
+	pos   token.Pos
 }
 
 func calleeName(c *ast.CallExpr) string {
@@ -169,6 +199,19 @@ func calleeName(c *ast.CallExpr) string {
 		return f.Sel.Name
 	}
 	return ""
+}
+
+// importNames: the names under which the files of the package import other packages (`errors.New` is not `New`)
+var importNames = map[string]bool{}
+
+// localCallee: the name of the callee if it can be a function of this package ("" for `pkg.F(…)` with pkg imported)
+func localCallee(c *ast.CallExpr) string {
+	if s, ok := c.Fun.(*ast.SelectorExpr); ok {
+		if id, ok := s.X.(*ast.Ident); ok && importNames[id.Name] && id.Obj == nil {
+			return ""
+		}
+	}
+	return calleeName(c)
 }
 
 func effectsOf(n ast.Node) []effect {
@@ -186,7 +229,7 @@ func effectsOf(n ast.Node) []effect {
 		case *ast.UnaryExpr:
 			walk(x.X)
 			if x.Op == token.ARROW {
-				out = append(out, effect{recv: chanName(x.X), pos: x.Pos()})
+				out = append(out, effect{recv: chanName(x.X), chX: x.X, pos: x.Pos()})
 			}
 			return
 		case *ast.CallExpr:
@@ -196,13 +239,17 @@ func effectsOf(n ast.Node) []effect {
 			if s, ok := x.Fun.(*ast.SelectorExpr); ok {
 				walk(s.X)
 			}
-			nm := calleeName(x)
+			nm := localCallee(x)
 			if id, ok := x.Fun.(*ast.Ident); ok && id.Name == "close" && len(x.Args) == 1 {
-				out = append(out, effect{recv: chanName(x.Args[0]), isCl: true, pos: x.Pos()})
+				out = append(out, effect{recv: chanName(x.Args[0]), chX: x.Args[0], isCl: true, pos: x.Pos()})
+				return
+			}
+			if _, ok := x.Fun.(*ast.FuncLit); ok {
+				out = append(out, effect{call: "func literal", callX: x, pos: x.Pos()})
 				return
 			}
 			if nm != "" {
-				out = append(out, effect{call: nm, pos: x.Pos()})
+				out = append(out, effect{call: nm, callX: x, pos: x.Pos()})
 			}
 			return
 		}
@@ -243,7 +290,7 @@ func (p *pkg) effectful() map[string]bool {
 				if id, ok := x.Fun.(*ast.Ident); ok && id.Name == "close" {
 					direct[key] = true
 				}
-				if nm := calleeName(x); nm != "" {
+				if nm := localCallee(x); nm != "" {
 					calls[key][nm] = true
 				}
 			}
@@ -274,52 +321,349 @@ func (p *pkg) effectful() map[string]bool {
 }
 
 // ---------------------------------------------------------------------------------------------------------------
+// lexical scopes: local channel variables, channel-typed parameters, closures bound to variables
+
+type closure struct {
+	lit *ast.FuncLit
+	env *scope
+}
+
+type scope struct {
+	parent *scope
+	chans  map[string]string   // identifier -> channel name
+	funcs  map[string]*closure // identifier -> function literal assigned to it
+}
+
+func (s *scope) child() *scope {
+	return &scope{parent: s, chans: map[string]string{}, funcs: map[string]*closure{}}
+}
+
+func (s *scope) chanOf(name string) (string, bool) {
+	for ; s != nil; s = s.parent {
+		if v, ok := s.chans[name]; ok {
+			return v, true
+		}
+	}
+	return "", false
+}
+
+func (s *scope) funcOf(name string) (*closure, bool) {
+	for ; s != nil; s = s.parent {
+		if v, ok := s.funcs[name]; ok {
+			return v, true
+		}
+	}
+	return nil, false
+}
+
+// makeChanCap: is e `make(chan T[, cap])`, and its capacity ("0", a literal, or "dynamic")
+func makeChanCap(e ast.Expr) (string, bool) {
+	c, ok := e.(*ast.CallExpr)
+	if !ok {
+		return "", false
+	}
+	if id, ok := c.Fun.(*ast.Ident); !ok || id.Name != "make" || len(c.Args) == 0 {
+		return "", false
+	}
+	if _, ok := c.Args[0].(*ast.ChanType); !ok {
+		return "", false
+	}
+	if len(c.Args) == 1 {
+		return "0", true
+	}
+	if bl, ok := c.Args[1].(*ast.BasicLit); ok {
+		return bl.Value, true
+	}
+	return "dynamic", true
+}
+
+// ---------------------------------------------------------------------------------------------------------------
 // CFG builder (continuation passing, compiled back to front)
 
 type ctx struct {
 	brk, cont, ret int
 	labels         map[string][2]int // label -> (brk, cont)
+	env            *scope            // local channels / closures visible here (nil: none)
+	fn             string            // prefix of the names of channels declared here (the function's name)
+	inst           string            // call-site path of the inlined closures / callees we are in ("@251")
+	recov          int               // 0: not in a deferred function; 1: deferred function, no panic in flight; 2: run by a panic
+	panicTo        int               // where a panic goes (entry of the deferred function in mode 2); -1: no recovering frame
+	facts          map[string]bool   // known truth values of tracked conditions ("err != nil"), by source text
+	dual           *dualK            // for the statement that establishes a fact: its two continuations
+	retT, retF     int               // inlined closure whose error result is tracked: where `return non-nil` / `return nil` go; -1: none
+}
+
+// dualK: the continuations of the statement that establishes `fact` (the rest of its block, compiled once per truth value)
+type dualK struct {
+	fact   string
+	kT, kF int
+}
+
+func (c ctx) withFact(f string, v bool) ctx {
+	m := map[string]bool{}
+	for k, x := range c.facts {
+		m[k] = x
+	}
+	m[f] = v
+	c.facts = m
+	return c
+}
+
+// tagSpec: messages on the local channel `Chan` are struct literals whose field `Field` (an error) is nil or not; the
+// model splits the channel in two: `name` carries the messages with Field == nil, `name#Field` those with Field != nil.
+// (Order between the two is lost — an over-approximation; what is kept is that the branch the receiver takes on
+// `x.Field != nil` is the one the sender took.)
+type tagSpec struct {
+	Chan, Field string
+}
+
+func newCtx(ret int) ctx {
+	return ctx{brk: -1, cont: -1, ret: ret, labels: map[string][2]int{}, panicTo: -1, retT: -1, retF: -1}
+}
+
+type mark struct {
+	Name  string // Lean name suffix
+	Text  string // whitespace-normalised source of the statement (or of the communication of a select clause)
+	After bool   // the marker node stands after the statement (for a select clause: at the start of its body)
+}
+
+// state shared by the builders of one multi-goroutine target
+type shared struct {
+	allowGo    bool
+	panicMode  bool
+	panicAt    map[string]bool
+	canPanic   map[string]bool
+	marks      []mark
+	spawned    []*spawnOut
+	localKinds map[string]string // channel name -> capacity ("start": a spawn signal)
+	localIdent map[string]bool   // identifiers bound to local channels (escape check)
+	closIdent  map[string]bool   // identifiers bound to closures
+	knownChans map[string]bool   // channel names of the package census
+	declStmt   map[ast.Stmt]bool // statements whose `make(chan)` was bound by `declare`
+	usedPanic  map[string]bool
+	tag        *tagSpec
+	tagged     map[string]bool // channel names (resolved) that are split by the tag
+	forks      map[string]bool // source text of the statements `v := …` after which `v != nil` is tracked
+	usedFork   map[string]bool
+	fd         *ast.FuncDecl
+}
+
+func (sh *shared) errChan(name string) string { return name + "#" + sh.tag.Field }
+
+// isTagged: is the channel called `name` split by the tag
+func (b *builder) isTagged(name string) bool {
+	return b.sh != nil && b.sh.tag != nil && b.sh.tagged[name]
+}
+
+// sendTag: which half of a tagged channel a send of `v` goes to: 0 = Field is nil, 1 = Field is not nil, -1 = unknown
+func (b *builder) sendTag(v ast.Expr, c ctx) int {
+	lit, ok := v.(*ast.CompositeLit)
+	if !ok {
+		return -1
+	}
+	var fe ast.Expr
+	for _, e := range lit.Elts {
+		if kv, ok := e.(*ast.KeyValueExpr); ok {
+			if id, ok := kv.Key.(*ast.Ident); ok && id.Name == b.sh.tag.Field {
+				fe = kv.Value
+			}
+		}
+	}
+	if fe == nil && len(lit.Elts) > 0 {
+		if _, keyed := lit.Elts[0].(*ast.KeyValueExpr); !keyed {
+			// positional literal: the index of the field in the (local) struct type
+			tid, ok := lit.Type.(*ast.Ident)
+			if !ok {
+				return -1
+			}
+			idx := -1
+			ast.Inspect(b.sh.fd.Body, func(n ast.Node) bool {
+				if ts, ok := n.(*ast.TypeSpec); ok && ts.Name.Name == tid.Name {
+					if st, ok := ts.Type.(*ast.StructType); ok {
+						i := 0
+						for _, f := range st.Fields.List {
+							for _, nm := range f.Names {
+								if nm.Name == b.sh.tag.Field {
+									idx = i
+								}
+								i++
+							}
+						}
+					}
+				}
+				return true
+			})
+			if idx >= 0 && idx < len(lit.Elts) {
+				fe = lit.Elts[idx]
+			}
+		}
+	}
+	if fe == nil {
+		return -1
+	}
+	if id, ok := fe.(*ast.Ident); ok {
+		if id.Name == "nil" {
+			return 0
+		}
+		if v, known := c.facts[id.Name+" != nil"]; known {
+			if v {
+				return 1
+			}
+			return 0
+		}
+	}
+	return -1
+}
+
+type spawnOut struct {
+	b     *builder
+	entry int
+	pos   token.Pos
+	path  string
+	start string
+	by    *builder // the spawner
+	at    int      // the node of the go statement in the spawner
 }
 
 type builder struct {
-	p      *pkg
-	nodes  []node
-	eff    map[string]bool
-	inline map[string]bool
-	opaque map[string]bool
-	depth  int
-	tname  string
+	p          *pkg
+	nodes      []node
+	eff        map[string]bool
+	inline     map[string]bool
+	opaque     map[string]bool
+	depth      int
+	tname      string
+	sh         *shared
+	marks      map[string][]int
+	curLine    int
+	sawRecover bool
 }
 
 func (b *builder) add(n node) int {
+	if n.line == 0 {
+		n.line = b.curLine
+	}
 	b.nodes = append(b.nodes, n)
 	return len(b.nodes) - 1
 }
 
 func (b *builder) skipTo(k int) int { return k }
 
+// chanOf: the name of the channel denoted by expression e at this point
+func (b *builder) chanOf(e ast.Expr, c ctx) string {
+	for {
+		pe, ok := e.(*ast.ParenExpr)
+		if !ok {
+			break
+		}
+		e = pe.X
+	}
+	if id, ok := e.(*ast.Ident); ok {
+		if nm, ok := c.env.chanOf(id.Name); ok {
+			return nm
+		}
+	}
+	return chanName(e)
+}
+
 func (b *builder) effects(effs []effect, k int, c ctx) int {
 	for i := len(effs) - 1; i >= 0; i-- {
 		e := effs[i]
 		switch {
 		case e.isCl:
-			k = b.add(node{kind: "close", ch: chanID(e.recv), next: k})
+			nm := b.chanOf(e.chX, c)
+			if b.isTagged(nm) {
+				k = b.add(node{kind: "close", ch: chanID(b.sh.errChan(nm)), next: k})
+			}
+			k = b.add(node{kind: "close", ch: chanID(nm), next: k})
 		case e.recv != "":
-			k = b.add(node{kind: "comm", cases: []comm{{false, chanID(e.recv), k}}, dflt: -1})
+			nm := b.chanOf(e.chX, c)
+			cs := []comm{{false, chanID(nm), k}}
+			if b.isTagged(nm) {
+				cs = append(cs, comm{false, chanID(b.sh.errChan(nm)), k})
+			}
+			k = b.add(node{kind: "comm", cases: cs, dflt: -1})
 		case e.call != "":
-			k = b.call(e, k)
+			k = b.call(e, k, c)
 		}
 	}
 	return k
 }
 
-func (b *builder) call(e effect, k int) int {
+// bindParams binds the channel-typed parameters of an inlined function to the channels the arguments denote
+func (b *builder) bindParams(ft *ast.FuncType, args []ast.Expr, caller ctx, env *scope, pos token.Pos) {
+	idx := 0
+	if ft.Params == nil {
+		return
+	}
+	for _, f := range ft.Params.List {
+		n := len(f.Names)
+		if n == 0 {
+			n = 1
+		}
+		for j := 0; j < n; j++ {
+			_, isChan := f.Type.(*ast.ChanType)
+			if idx < len(args) {
+				if isChan {
+					if len(f.Names) > 0 {
+						env.chans[f.Names[j].Name] = b.chanOf(args[idx], caller)
+					}
+				} else if id, ok := args[idx].(*ast.Ident); ok {
+					if _, isLocal := caller.env.chanOf(id.Name); isLocal {
+						fail(b.p.fset, pos, "local channel %s is passed for a parameter that is not of channel type", id.Name)
+					}
+				}
+			}
+			idx++
+		}
+	}
+}
+
+func (b *builder) call(e effect, k int, c ctx) int {
+	fset := b.p.fset
+	if e.call == "recover" {
+		fail(fset, e.pos, "recover() outside the pattern `if v := recover(); v != nil {…}` of a deferred function is not supported")
+	}
+	// a closure bound to a local variable: inline its body at the call site
+	if e.callX != nil {
+		if id, ok := e.callX.Fun.(*ast.Ident); ok {
+			if cl, ok := c.env.funcOf(id.Name); ok {
+				return b.inlineClosure(cl, e.callX, k, nil, c)
+			}
+		}
+	}
+	if e.call == "func literal" {
+		fail(fset, e.pos, "a function literal called in place is not supported")
+	}
 	keys := b.p.byNm[e.call]
 	var effKeys []string
 	for _, key := range keys {
 		if b.eff[key] {
 			effKeys = append(effKeys, key)
 		}
+	}
+	if b.sh != nil && b.sh.panicAt[e.call] {
+		// a declared panic site: the callee may panic (variant P only); it must not reach a channel operation itself
+		if len(effKeys) != 0 {
+			fail(fset, e.pos, "panic site %s can reach a channel operation: not supported", e.call)
+		}
+		can := false
+		for _, key := range keys {
+			if b.sh.canPanic[key] {
+				can = true
+			}
+		}
+		if !can {
+			fail(fset, e.pos, "declared panic site %s cannot reach a panic(…) call", e.call)
+		}
+		b.sh.usedPanic[e.call] = true
+		if b.sh.panicMode {
+			if c.panicTo < 0 {
+				fail(fset, e.pos, "panic site %s outside a function with a recovering deferred function", e.call)
+			}
+			return b.add(node{kind: "choice", nexts: []int{k, c.panicTo}})
+		}
+		return k
 	}
 	if len(effKeys) == 0 {
 		return k
@@ -329,14 +673,24 @@ func (b *builder) call(e effect, k int) int {
 		return k
 	}
 	if b.depth > 6 {
-		fail(b.p.fset, e.pos, "inlining too deep at %s", e.call)
+		fail(fset, e.pos, "inlining too deep at %s", e.call)
 	}
 	sort.Strings(effKeys)
 	var entries []int
 	for _, key := range effKeys {
 		fd := b.p.funcs[key]
+		c2 := newCtx(k)
+		if b.sh != nil {
+			env := (*scope)(nil).child()
+			if e.callX != nil {
+				b.bindParams(fd.Type, e.callX.Args, c, env, e.pos)
+			}
+			c2.env, c2.fn = env, fd.Name.Name
+			c2.inst = c.inst + fmt.Sprintf("@%d", fset.Position(e.pos).Line)
+			c2.panicTo = c.panicTo
+		}
 		b.depth++
-		entries = append(entries, b.block(fd.Body.List, k, ctx{brk: -1, cont: -1, ret: k, labels: map[string][2]int{}}))
+		entries = append(entries, b.funcBody(fd.Body, k, c2))
 		b.depth--
 	}
 	if len(entries) == 1 {
@@ -345,47 +699,570 @@ func (b *builder) call(e effect, k int) int {
 	return b.add(node{kind: "choice", nexts: entries})
 }
 
+// inlineClosure inlines the body of a closure bound to a local variable at a call site; with `dual`, the closure has one
+// result of type error and its `return nil` / `return <known non-nil>` go to dual.kF / dual.kT (anything else to k)
+func (b *builder) inlineClosure(cl *closure, call *ast.CallExpr, k int, dual *dualK, c ctx) int {
+	fset := b.p.fset
+	if b.depth > 6 {
+		fail(fset, call.Pos(), "inlining too deep at a closure call")
+	}
+	env := cl.env.child()
+	b.bindParams(cl.lit.Type, call.Args, c, env, call.Pos())
+	c2 := newCtx(k)
+	c2.env, c2.fn = env, c.fn
+	c2.inst = c.inst + fmt.Sprintf("@%d", fset.Position(call.Pos()).Line)
+	c2.panicTo = c.panicTo
+	if dual != nil {
+		c2.retT, c2.retF = dual.kT, dual.kF
+	}
+	b.depth++
+	entry := b.funcBody(cl.lit.Body, k, c2)
+	b.depth--
+	var effs []effect
+	for _, a := range call.Args {
+		effs = append(effs, effectsOf(a)...)
+	}
+	return b.effects(effs, entry, c)
+}
+
+// errClosureCall: is s `x = f()` / `x := f()` with f a local closure that returns exactly one error
+func (b *builder) errClosureCall(s ast.Stmt, c ctx) (*closure, *ast.CallExpr, string, bool) {
+	as, ok := s.(*ast.AssignStmt)
+	if !ok || len(as.Lhs) != 1 || len(as.Rhs) != 1 {
+		return nil, nil, "", false
+	}
+	id, ok := as.Lhs[0].(*ast.Ident)
+	if !ok {
+		return nil, nil, "", false
+	}
+	call, ok := as.Rhs[0].(*ast.CallExpr)
+	if !ok {
+		return nil, nil, "", false
+	}
+	fid, ok := call.Fun.(*ast.Ident)
+	if !ok {
+		return nil, nil, "", false
+	}
+	cl, ok := c.env.funcOf(fid.Name)
+	if !ok {
+		return nil, nil, "", false
+	}
+	rs := cl.lit.Type.Results
+	if rs == nil || len(rs.List) != 1 || len(rs.List[0].Names) > 1 {
+		return nil, nil, "", false
+	}
+	if t, ok := rs.List[0].Type.(*ast.Ident); !ok || t.Name != "error" {
+		return nil, nil, "", false
+	}
+	return cl, call, id.Name, true
+}
+
+// nilCond: is cond `X != nil` / `X == nil`; the key "X != nil" and whether cond is its negation
+func (b *builder) nilCond(cond ast.Expr) (key string, neg bool, x ast.Expr, ok bool) {
+	be, isB := cond.(*ast.BinaryExpr)
+	if !isB || (be.Op != token.NEQ && be.Op != token.EQL) {
+		return "", false, nil, false
+	}
+	if id, isId := be.Y.(*ast.Ident); !isId || id.Name != "nil" {
+		return "", false, nil, false
+	}
+	return b.p.src(be.X) + " != nil", be.Op == token.EQL, be.X, true
+}
+
+// funcBody compiles the body of a function (inlined callee, inlined closure, goroutine, deferred function).
+// `after` is where the function returns to. Deferred calls at the top level of the body run at every return.
+func (b *builder) funcBody(body *ast.BlockStmt, after int, c ctx) int {
+	fset := b.p.fset
+	var defers []*ast.DeferStmt
+	top := map[*ast.DeferStmt]bool{}
+	last := -1
+	for i, st := range body.List {
+		if d, ok := st.(*ast.DeferStmt); ok {
+			defers = append(defers, d)
+			top[d] = true
+			last = i
+		}
+	}
+	ast.Inspect(body, func(n ast.Node) bool {
+		switch x := n.(type) {
+		case *ast.FuncLit:
+			return false
+		case *ast.DeferStmt:
+			if !top[x] {
+				fail(fset, x.Pos(), "defer that is not at the top level of its function body is not supported")
+			}
+			return false
+		}
+		return true
+	})
+	// what precedes the last defer must be plain (no return, no channel operation): then every return runs every defer
+	for i := 0; i < last; i++ {
+		if _, ok := body.List[i].(*ast.DeferStmt); ok {
+			continue
+		}
+		plain := true
+		ast.Inspect(body.List[i], func(n ast.Node) bool {
+			switch n.(type) {
+			case *ast.FuncLit:
+				return false
+			case *ast.ReturnStmt, *ast.GoStmt, *ast.SendStmt, *ast.SelectStmt, *ast.RangeStmt, *ast.ForStmt:
+				plain = false
+			}
+			return true
+		})
+		for _, e := range effectsOf(body.List[i]) {
+			if e.recv != "" {
+				plain = false
+			}
+			for _, key := range b.p.byNm[e.call] {
+				if b.eff[key] {
+					plain = false
+				}
+			}
+		}
+		if !plain {
+			fail(fset, body.List[i].Pos(), "statement before a defer is not plain (return / channel operation): not supported")
+		}
+	}
+	ret := after
+	panicTo := c.panicTo // a panic in a frame without defers unwinds to the caller's recovering frame
+	if len(defers) > 0 {
+		if b.sh == nil || !b.sh.allowGo {
+			fail(fset, defers[0].Pos(), "defer inside a target is not supported")
+		}
+		if c.retT >= 0 {
+			fail(fset, defers[0].Pos(), "defer in a closure whose result is tracked: not supported")
+		}
+		panicTo = -1
+		if b.sh.panicMode {
+			if len(defers) != 1 {
+				fail(fset, defers[1].Pos(), "variant P: more than one defer in a function is not supported")
+			}
+			panicTo = b.deferred(defers[0], after, c, 2)
+		}
+		for _, d := range defers { // LIFO: the last deferred call runs first
+			ret = b.deferred(d, ret, c, 1)
+		}
+	}
+	list := make([]ast.Stmt, 0, len(body.List))
+	for _, st := range body.List {
+		if _, ok := st.(*ast.DeferStmt); ok {
+			continue
+		}
+		list = append(list, st)
+	}
+	c.ret, c.brk, c.cont, c.panicTo = ret, -1, -1, panicTo
+	return b.block(list, ret, c)
+}
+
+// deferred compiles one deferred call; mode 1: run at a normal return, mode 2: run by a panic (must recover)
+func (b *builder) deferred(d *ast.DeferStmt, next int, c ctx, mode int) int {
+	fset := b.p.fset
+	lit, ok := d.Call.Fun.(*ast.FuncLit)
+	if !ok {
+		// `defer f(x)`: only when nothing in it can reach a channel operation
+		for _, e := range effectsOf(d.Call) {
+			if e.recv != "" {
+				fail(fset, d.Pos(), "deferred call with a channel operation is not supported")
+			}
+			for _, key := range b.p.byNm[e.call] {
+				if b.eff[key] {
+					fail(fset, d.Pos(), "deferred call %s can reach a channel operation: not supported", e.call)
+				}
+			}
+		}
+		if mode == 2 {
+			fail(fset, d.Pos(), "variant P: the deferred call does not recover")
+		}
+		return next
+	}
+	if len(d.Call.Args) != 0 {
+		fail(fset, d.Pos(), "deferred function literal with arguments is not supported")
+	}
+	c2 := newCtx(next)
+	c2.env, c2.fn, c2.inst, c2.recov = c.env.child(), c.fn, c.inst, mode
+	saw := b.sawRecover
+	b.sawRecover = false
+	e := b.funcBody(lit.Body, next, c2)
+	if mode == 2 && !b.sawRecover {
+		fail(fset, d.Pos(), "variant P: the deferred function does not recover")
+	}
+	b.sawRecover = saw
+	return e
+}
+
+// declare: the scope after statement st (binds `x := make(chan …)`, `var x = make(chan …)`, `f := func(…){…}`)
+func (b *builder) declare(st ast.Stmt, c ctx) (*scope, int) {
+	fset := b.p.fset
+	env := c.env
+	made := 0
+	bindChan := func(id *ast.Ident, capStr string) {
+		if b.sh == nil {
+			fail(fset, id.Pos(), "local channel %s in a target that does not support them", id.Name)
+		}
+		if capStr == "dynamic" {
+			fail(fset, id.Pos(), "local channel %s has a non-constant capacity", id.Name)
+		}
+		name := c.fn + "." + id.Name + c.inst
+		if old, dup := b.sh.localKinds[name]; dup && old != capStr {
+			fail(fset, id.Pos(), "local channel %s made with two capacities", name)
+		}
+		b.sh.localKinds[name] = capStr
+		if b.sh.tag != nil && b.sh.tag.Chan == id.Name {
+			b.sh.tagged[name] = true
+			b.sh.localKinds[b.sh.errChan(name)] = capStr
+		}
+		b.sh.localIdent[id.Name] = true
+		env = env.child()
+		env.chans[id.Name] = name
+		made++
+		b.sh.declStmt[st] = true
+	}
+	bindFunc := func(id *ast.Ident, lit *ast.FuncLit) {
+		if b.sh == nil {
+			return
+		}
+		cl := &closure{lit: lit, env: env}
+		env = env.child()
+		env.funcs[id.Name] = cl
+		b.sh.closIdent[id.Name] = true
+	}
+	switch x := st.(type) {
+	case *ast.DeclStmt:
+		gd, ok := x.Decl.(*ast.GenDecl)
+		if !ok || gd.Tok != token.VAR {
+			break
+		}
+		for _, sp := range gd.Specs {
+			vs := sp.(*ast.ValueSpec)
+			for i, v := range vs.Values {
+				if i >= len(vs.Names) {
+					break
+				}
+				if cp, ok := makeChanCap(v); ok {
+					bindChan(vs.Names[i], cp)
+				} else if lit, ok := v.(*ast.FuncLit); ok {
+					bindFunc(vs.Names[i], lit)
+				}
+			}
+		}
+	case *ast.AssignStmt:
+		if len(x.Lhs) != len(x.Rhs) {
+			break
+		}
+		for i, r := range x.Rhs {
+			id, isId := x.Lhs[i].(*ast.Ident)
+			if !isId {
+				continue
+			}
+			if x.Tok == token.DEFINE {
+				if cp, ok := makeChanCap(r); ok {
+					bindChan(id, cp)
+					continue
+				}
+				if lit, ok := r.(*ast.FuncLit); ok {
+					bindFunc(id, lit)
+					continue
+				}
+			}
+			if _, isCh := env.chanOf(id.Name); isCh {
+				fail(fset, x.Pos(), "local channel variable %s is assigned again: not supported", id.Name)
+			}
+			if _, isFn := env.funcOf(id.Name); isFn {
+				fail(fset, x.Pos(), "closure variable %s is assigned again: not supported", id.Name)
+			}
+		}
+	}
+	return env, made
+}
+
 func (b *builder) block(list []ast.Stmt, k int, c ctx) int {
-	for i := len(list) - 1; i >= 0; i-- {
-		k = b.stmt(list[i], k, c)
+	envs := make([]*scope, len(list)+1)
+	made := make([]int, len(list))
+	envs[0] = c.env
+	for i, st := range list {
+		c1 := c
+		c1.env = envs[i]
+		envs[i+1], made[i] = b.declare(st, c1)
+	}
+	upto := len(list)
+	for i, st := range list {
+		c1 := c
+		c1.env = envs[i]
+		fact, v, ok := b.establishes(st, c1)
+		if !ok {
+			continue
+		}
+		// the rest of the block is compiled once per truth value of the condition (and once without, for the ways
+		// through the statement that do not fix it); the variable must not change in the rest
+		rest := list[i+1:]
+		if assignsTo(rest, v) {
+			fail(b.p.fset, st.Pos(), "tracked variable %s is assigned again in the rest of the block: not supported", v)
+		}
+		c2 := c
+		c2.env = envs[i+1]
+		kU := b.block(rest, k, c2)
+		kT := b.block(rest, k, c2.withFact(fact, true))
+		kF := b.block(rest, k, c2.withFact(fact, false))
+		c1.dual = &dualK{fact: fact, kT: kT, kF: kF}
+		k = b.stmt(st, kU, c1)
+		if made[i] > 0 {
+			fail(b.p.fset, st.Pos(), "make(chan) in a statement that establishes a tracked condition: not supported")
+		}
+		upto = i
+		break
+	}
+	for i := upto - 1; i >= 0; i-- {
+		c1 := c
+		c1.env = envs[i]
+		k = b.stmt(list[i], k, c1)
+		if made[i] > 0 {
+			// a `make(chan)` site: one name stands for one channel only if the site runs at most once (checked on the CFG)
+			k = b.add(node{kind: "choice", nexts: []int{k}, once: "make(chan) at line " + strconv.Itoa(b.p.fset.Position(list[i].Pos()).Line), line: b.p.fset.Position(list[i].Pos()).Line})
+		}
 	}
 	return k
 }
 
-func (b *builder) commOf(s ast.Stmt, next int) (comm, bool) {
+// commOf: the communication(s) of a statement that is a bare send / receive (or the communication of a select clause).
+// On a tagged channel a receive is two cases (one per half), a send goes to the half its tag says (both if unknown).
+func (b *builder) commOf(s ast.Stmt, next int, c ctx) ([]comm, bool) {
+	recv := func(e ast.Expr) []comm {
+		nm := b.chanOf(e, c)
+		cs := []comm{{false, chanID(nm), next}}
+		if b.isTagged(nm) {
+			cs = append(cs, comm{false, chanID(b.sh.errChan(nm)), next})
+		}
+		return cs
+	}
 	switch x := s.(type) {
 	case *ast.SendStmt:
-		return comm{true, chanID(chanName(x.Chan)), next}, true
+		nm := b.chanOf(x.Chan, c)
+		if b.isTagged(nm) {
+			switch b.sendTag(x.Value, c) {
+			case 0:
+				return []comm{{true, chanID(nm), next}}, true
+			case 1:
+				return []comm{{true, chanID(b.sh.errChan(nm)), next}}, true
+			}
+			return []comm{{true, chanID(nm), next}, {true, chanID(b.sh.errChan(nm)), next}}, true
+		}
+		return []comm{{true, chanID(nm), next}}, true
 	case *ast.ExprStmt:
 		if u, ok := x.X.(*ast.UnaryExpr); ok && u.Op == token.ARROW {
-			return comm{false, chanID(chanName(u.X)), next}, true
+			return recv(u.X), true
 		}
 	case *ast.AssignStmt:
 		if len(x.Rhs) == 1 {
 			if u, ok := x.Rhs[0].(*ast.UnaryExpr); ok && u.Op == token.ARROW {
-				return comm{false, chanID(chanName(u.X)), next}, true
+				if len(x.Lhs) == 2 && b.sh != nil {
+					fail(b.p.fset, x.Pos(), "`v, ok := <-ch` is not supported (use recvOrClosed by hand)")
+				}
+				return recv(u.X), true
 			}
 		}
 	}
-	return comm{}, false
+	return nil, false
+}
+
+// taggedRecv: is s `x = <-ch` / `x := <-ch` with ch a tagged channel and x an identifier; the fact it establishes
+func (b *builder) taggedRecv(s ast.Stmt, c ctx) (string, string, bool) {
+	as, ok := s.(*ast.AssignStmt)
+	if !ok || len(as.Lhs) != 1 || len(as.Rhs) != 1 {
+		return "", "", false
+	}
+	u, ok := as.Rhs[0].(*ast.UnaryExpr)
+	if !ok || u.Op != token.ARROW {
+		return "", "", false
+	}
+	id, ok := as.Lhs[0].(*ast.Ident)
+	if !ok {
+		return "", "", false
+	}
+	nm := b.chanOf(u.X, c)
+	if !b.isTagged(nm) {
+		return "", "", false
+	}
+	return nm, id.Name + "." + b.sh.tag.Field + " != nil", true
+}
+
+// establishes: does statement st fix the truth value of a tracked condition for the rest of its block
+func (b *builder) establishes(st ast.Stmt, c ctx) (fact string, v string, ok bool) {
+	if b.sh == nil {
+		return "", "", false
+	}
+	switch x := st.(type) {
+	case *ast.AssignStmt:
+		if len(b.sh.forks) > 0 && len(x.Lhs) == 1 && b.sh.forks[b.p.src(st)] {
+			if id, ok := x.Lhs[0].(*ast.Ident); ok {
+				return id.Name + " != nil", id.Name, true
+			}
+		}
+		if b.sh.tag != nil {
+			if _, f, ok := b.taggedRecv(st, c); ok {
+				return f, x.Lhs[0].(*ast.Ident).Name, true
+			}
+		}
+		if _, _, v, ok := b.errClosureCall(st, c); ok {
+			return v + " != nil", v, true
+		}
+	case *ast.SelectStmt:
+		if b.sh.tag == nil {
+			return "", "", false
+		}
+		for _, cl := range x.Body.List {
+			cc := cl.(*ast.CommClause)
+			if cc.Comm != nil {
+				if _, f, ok := b.taggedRecv(cc.Comm, c); ok {
+					return f, cc.Comm.(*ast.AssignStmt).Lhs[0].(*ast.Ident).Name, true
+				}
+			}
+		}
+	}
+	return "", "", false
+}
+
+// assignsTo: is variable v assigned (or its address taken) anywhere in the statements
+func assignsTo(list []ast.Stmt, v string) bool {
+	found := false
+	for _, st := range list {
+		ast.Inspect(st, func(n ast.Node) bool {
+			switch x := n.(type) {
+			case *ast.AssignStmt:
+				for _, l := range x.Lhs {
+					if id, ok := l.(*ast.Ident); ok && id.Name == v {
+						found = true
+					}
+				}
+			case *ast.IncDecStmt:
+				if id, ok := x.X.(*ast.Ident); ok && id.Name == v {
+					found = true
+				}
+			case *ast.UnaryExpr:
+				if id, ok := x.X.(*ast.Ident); ok && id.Name == v && x.Op == token.AND {
+					found = true
+				}
+			case *ast.ValueSpec:
+				for _, nm := range x.Names {
+					if nm.Name == v {
+						found = true
+					}
+				}
+			case *ast.RangeStmt:
+				for _, e := range []ast.Expr{x.Key, x.Value} {
+					if id, ok := e.(*ast.Ident); ok && id.Name == v {
+						found = true
+					}
+				}
+			}
+			return true
+		})
+	}
+	return found
+}
+
+func (b *builder) markOf(text string, after bool) *mark {
+	if b.sh == nil {
+		return nil
+	}
+	for i := range b.sh.marks {
+		if b.sh.marks[i].Text == text && b.sh.marks[i].After == after {
+			return &b.sh.marks[i]
+		}
+	}
+	return nil
+}
+
+func (b *builder) marker(m *mark, k int) int {
+	n := b.add(node{kind: "choice", nexts: []int{k}, mark: m.Name})
+	b.marks[m.Name] = append(b.marks[m.Name], n)
+	return n
 }
 
 func (b *builder) stmt(s ast.Stmt, k int, c ctx) int {
+	if s == nil {
+		return k
+	}
+	saved := b.curLine
+	b.curLine = b.p.fset.Position(s.Pos()).Line
+	defer func() { b.curLine = saved }()
+	if b.sh != nil && len(b.sh.marks) > 0 {
+		text := b.p.src(s)
+		if m := b.markOf(text, true); m != nil {
+			k = b.marker(m, k)
+		}
+		if m := b.markOf(text, false); m != nil {
+			return b.marker(m, b.stmt0(s, k, c))
+		}
+	}
+	return b.stmt0(s, k, c)
+}
+
+func isRecoverCall(e ast.Expr) bool {
+	c, ok := e.(*ast.CallExpr)
+	if !ok {
+		return false
+	}
+	id, ok := c.Fun.(*ast.Ident)
+	return ok && id.Name == "recover" && len(c.Args) == 0
+}
+
+func (b *builder) stmt0(s ast.Stmt, k int, c ctx) int {
 	fset := b.p.fset
+	dual := c.dual
+	c.dual = nil
 	switch x := s.(type) {
 	case nil:
 		return k
-	case *ast.EmptyStmt, *ast.DeclStmt, *ast.IncDecStmt:
+	case *ast.EmptyStmt, *ast.IncDecStmt:
 		return k
+	case *ast.DeclStmt:
+		if b.sh == nil {
+			return k
+		}
+		var effs []effect
+		if gd, ok := x.Decl.(*ast.GenDecl); ok && gd.Tok == token.VAR {
+			for _, sp := range gd.Specs {
+				for _, v := range sp.(*ast.ValueSpec).Values {
+					if _, ok := makeChanCap(v); ok && !b.sh.declStmt[s] {
+						fail(fset, x.Pos(), "make(chan) in a declaration that is not a statement of a block: not supported")
+					}
+					effs = append(effs, effectsOf(v)...)
+				}
+			}
+		}
+		return b.effects(effs, k, c)
 	case *ast.ExprStmt, *ast.AssignStmt:
-		if cm, ok := b.commOf(s, k); ok {
+		if dual != nil {
+			if nm, _, ok := b.taggedRecv(s, c); ok {
+				// `x = <-ch` on a tagged channel: the half the message comes from fixes `x.Field != nil`
+				return b.add(node{kind: "comm", cases: []comm{{false, chanID(nm), dual.kF}, {false, chanID(b.sh.errChan(nm)), dual.kT}}, dflt: -1})
+			}
+			if cl, call, _, ok := b.errClosureCall(s, c); ok {
+				// `x = f()` with f a local closure returning an error: its returns fix `x != nil`
+				return b.inlineClosure(cl, call, k, dual, c)
+			}
+			// a fork statement `v := f(…)`: both truth values of `v != nil` are possible
+			b.sh.usedFork[b.p.src(s)] = true
+			return b.effects(effectsOf(s), b.add(node{kind: "choice", nexts: []int{dual.kT, dual.kF}}), c)
+		}
+		if cm, ok := b.commOf(s, k, c); ok {
 			// operands of the receive itself carry no effects we track
-			return b.add(node{kind: "comm", cases: []comm{cm}, dflt: -1})
+			return b.add(node{kind: "comm", cases: cm, dflt: -1})
+		}
+		if as, ok := s.(*ast.AssignStmt); ok && b.sh != nil {
+			for i, r := range as.Rhs {
+				if _, ok := makeChanCap(r); ok && i < len(as.Lhs) {
+					if _, isId := as.Lhs[i].(*ast.Ident); isId && !b.sh.declStmt[s] {
+						fail(fset, as.Pos(), "make(chan) assigned to a variable outside a `:=` statement of a block: not supported")
+					}
+				}
+			}
 		}
 		return b.effects(effectsOf(s), k, c)
 	case *ast.SendStmt:
-		cm, _ := b.commOf(s, k)
-		n := b.add(node{kind: "comm", cases: []comm{cm}, dflt: -1})
+		cm, _ := b.commOf(s, k, c)
+		n := b.add(node{kind: "comm", cases: cm, dflt: -1})
 		return b.effects(effectsOf(x.Value), n, c)
 	case *ast.BlockStmt:
 		return b.block(x.List, k, c)
@@ -406,6 +1283,19 @@ func (b *builder) stmt(s ast.Stmt, k int, c ctx) int {
 		var effs []effect
 		for _, r := range x.Results {
 			effs = append(effs, effectsOf(r)...)
+		}
+		if c.retT >= 0 && len(x.Results) == 1 {
+			if id, ok := x.Results[0].(*ast.Ident); ok {
+				if id.Name == "nil" {
+					return c.retF
+				}
+				if v, known := c.facts[id.Name+" != nil"]; known {
+					if v {
+						return c.retT
+					}
+					return c.retF
+				}
+			}
 		}
 		return b.effects(effs, c.ret, c)
 	case *ast.BranchStmt:
@@ -429,10 +1319,63 @@ func (b *builder) stmt(s ast.Stmt, k int, c ctx) int {
 		}
 		fail(fset, x.Pos(), "unsupported branch statement %s", x.Tok)
 	case *ast.IfStmt:
-		thenE := b.block(x.Body.List, k, c)
+		// `if v := recover(); v != nil { A } [else B]` inside a deferred function
+		if as, ok := x.Init.(*ast.AssignStmt); ok && len(as.Rhs) == 1 && isRecoverCall(as.Rhs[0]) {
+			if c.recov == 0 {
+				fail(fset, x.Pos(), "recover() outside a deferred function literal")
+			}
+			be, ok := x.Cond.(*ast.BinaryExpr)
+			if !ok || be.Op != token.NEQ || len(as.Lhs) != 1 || b.p.src(be.X) != b.p.src(as.Lhs[0]) || b.p.src(be.Y) != "nil" {
+				fail(fset, x.Pos(), "recover(): only `if v := recover(); v != nil {…}` is supported")
+			}
+			if c.recov == 1 { // no panic in flight: recover() returns nil
+				if x.Else != nil {
+					return b.stmt(x.Else, k, c)
+				}
+				return k
+			}
+			if b.sawRecover {
+				fail(fset, x.Pos(), "variant P: second recover() in one deferred function")
+			}
+			b.sawRecover = true
+			c2 := c
+			c2.recov = 1
+			return b.block(x.Body.List, k, c2)
+		}
+		if x.Init != nil && b.sh != nil {
+			if _, _, ok := b.establishes(x.Init, c); ok {
+				// `if init; cond {…}` is `{ init; if cond {…} }`: the block compiles the `if` once per truth value
+				return b.block([]ast.Stmt{x.Init, &ast.IfStmt{If: x.If, Cond: x.Cond, Body: x.Body, Else: x.Else}}, k, c)
+			}
+		}
+		cThen, cElse := c, c
+		if b.sh != nil {
+			if key, neg, xe, ok := b.nilCond(x.Cond); ok {
+				if v, known := c.facts[key]; known && x.Init == nil {
+					// a tracked condition whose truth value is fixed on this path
+					if v != neg {
+						return b.block(x.Body.List, k, c)
+					}
+					if x.Else != nil {
+						return b.stmt(x.Else, k, c)
+					}
+					return k
+				}
+				// inside the branches the condition is known, as long as the variable is not assigned there
+				if id, isId := xe.(*ast.Ident); isId {
+					if !assignsTo(x.Body.List, id.Name) {
+						cThen = c.withFact(key, !neg)
+					}
+					if x.Else != nil && !assignsTo([]ast.Stmt{x.Else}, id.Name) {
+						cElse = c.withFact(key, neg)
+					}
+				}
+			}
+		}
+		thenE := b.block(x.Body.List, k, cThen)
 		elseE := k
 		if x.Else != nil {
-			elseE = b.stmt(x.Else, k, c)
+			elseE = b.stmt(x.Else, k, cElse)
 		}
 		ch := b.add(node{kind: "choice", nexts: []int{thenE, elseE}})
 		n := b.effects(effectsOf(x.Cond), ch, c)
@@ -482,25 +1425,109 @@ func (b *builder) stmt(s ast.Stmt, k int, c ctx) int {
 		nd := node{kind: "comm", dflt: -1}
 		for _, cl := range x.Body.List {
 			cc := cl.(*ast.CommClause)
+			if cc.Comm != nil && dual != nil {
+				if nm, _, ok := b.taggedRecv(cc.Comm, c); ok {
+					// `case x = <-ch:` on a tagged channel: one case per half, each with its own continuation
+					cF, cT := c2.withFact(dual.fact, false), c2.withFact(dual.fact, true)
+					cF.brk, cT.brk = dual.kF, dual.kT
+					nd.cases = append(nd.cases, comm{false, chanID(nm), b.block(cc.Body, dual.kF, cF)},
+						comm{false, chanID(b.sh.errChan(nm)), b.block(cc.Body, dual.kT, cT)})
+					continue
+				}
+			}
 			body := b.block(cc.Body, k, c2)
 			if cc.Comm == nil {
 				nd.dflt = body
 				continue
 			}
-			cm, ok := b.commOf(cc.Comm, body)
+			if b.sh != nil && len(b.sh.marks) > 0 {
+				if m := b.markOf(b.p.src(cc.Comm), true); m != nil {
+					body = b.marker(m, body)
+				}
+			}
+			cm, ok := b.commOf(cc.Comm, body, c)
 			if !ok {
 				fail(fset, cc.Pos(), "unsupported select case")
 			}
-			nd.cases = append(nd.cases, cm)
+			if ss, ok := cc.Comm.(*ast.SendStmt); ok && b.sh != nil {
+				for _, e := range effectsOf(ss.Value) {
+					for _, key := range b.p.byNm[e.call] {
+						if b.eff[key] {
+							fail(fset, cc.Pos(), "value sent in a select case calls %s which can reach a channel operation: not supported", e.call)
+						}
+					}
+					if e.recv != "" {
+						fail(fset, cc.Pos(), "value sent in a select case has a channel operation: not supported")
+					}
+				}
+			}
+			nd.cases = append(nd.cases, cm...)
 		}
 		return b.add(nd)
 	case *ast.GoStmt:
-		fail(fset, x.Pos(), "go statement inside a target is not supported")
+		if b.sh == nil || !b.sh.allowGo {
+			fail(fset, x.Pos(), "go statement inside a target is not supported")
+		}
+		return b.spawn(x, k, c)
 	case *ast.DeferStmt:
-		fail(fset, x.Pos(), "defer inside a target is not supported")
+		fail(fset, x.Pos(), "defer that is not at the top level of its function body is not supported")
 	}
 	fail(fset, s.Pos(), "unsupported statement %T", s)
 	return k
+}
+
+// spawn: `go func(){…}()` becomes a process of its own that waits at its entry for the spawn signal: a private
+// channel `start:…` that the spawner CLOSES at the go statement (a second execution of the same go statement would be
+// a double close, i.e. `bad`: so `noPanic` includes "every go statement runs at most once", which is what makes one
+// process per go statement exact).
+func (b *builder) spawn(x *ast.GoStmt, k int, c ctx) int {
+	fset := b.p.fset
+	var lit *ast.FuncLit
+	env := c.env
+	switch f := x.Call.Fun.(type) {
+	case *ast.FuncLit:
+		lit = f
+	case *ast.Ident:
+		if cl, ok := c.env.funcOf(f.Name); ok {
+			lit, env = cl.lit, cl.env
+		}
+	}
+	if lit == nil || len(x.Call.Args) != 0 {
+		fail(fset, x.Pos(), "go statement: only `go func(){…}()` / `go f()` with f a local closure, without arguments, is supported")
+	}
+	line := fset.Position(x.Pos()).Line
+	path := c.inst + fmt.Sprintf("@go%d", line)
+	start := "start:" + c.fn + path
+	b.sh.localKinds[start] = "start"
+	nb := &builder{p: b.p, eff: b.eff, inline: b.inline, opaque: b.opaque, tname: b.tname, sh: b.sh, marks: map[string][]int{}, depth: b.depth}
+	nb.curLine = line
+	halt := nb.add(node{kind: "halt"})
+	c2 := newCtx(halt)
+	c2.env, c2.fn, c2.inst = env.child(), c.fn, path
+	body := nb.funcBody(lit.Body, halt, c2)
+	entry := nb.add(node{kind: "comm", cases: []comm{{false, chanID(start), body}}, dflt: -1, line: line})
+	at := b.add(node{kind: "close", ch: chanID(start), next: k, once: "go statement at line " + strconv.Itoa(line), line: line})
+	b.sh.spawned = append(b.sh.spawned, &spawnOut{b: nb, entry: entry, pos: x.Pos(), path: path, start: start, by: b, at: at})
+	return at
+}
+
+// rangeChan: is `for range X` a receive loop, and on which channel
+func (b *builder) rangeChan(e ast.Expr, c ctx) (string, bool) {
+	if b.sh == nil {
+		return "", false
+	}
+	if id, ok := e.(*ast.Ident); ok {
+		if nm, ok := c.env.chanOf(id.Name); ok {
+			return nm, true
+		}
+	}
+	switch e.(type) {
+	case *ast.Ident, *ast.SelectorExpr:
+		if nm := chanName(e); b.sh.knownChans[nm] {
+			return nm, true
+		}
+	}
+	return "", false
 }
 
 func (b *builder) loop(s ast.Stmt, k int, c ctx, label string) int {
@@ -536,11 +1563,270 @@ func (b *builder) loop(s ast.Stmt, k int, c ctx, label string) int {
 		}
 		return b.stmt(x.Init, head, c)
 	case *ast.RangeStmt:
+		if nm, ok := b.rangeChan(x.X, c); ok {
+			// `for range ch`: receive until ch is closed and empty
+			body := b.block(x.Body.List, head, c2)
+			line := b.p.fset.Position(x.Pos()).Line
+			if b.isTagged(nm) {
+				// both halves: drain the first until it is closed and empty, then the second (an item of the second half
+				// sends control back to the head, which falls through the first half again)
+				second := b.add(node{kind: "range", ch: chanID(b.sh.errChan(nm)), next: body, next2: k, line: line})
+				b.nodes[head] = node{kind: "range", ch: chanID(nm), next: body, next2: second, line: line}
+				return head
+			}
+			b.nodes[head] = node{kind: "range", ch: chanID(nm), next: body, next2: k, line: line}
+			return head
+		}
 		body := b.block(x.Body.List, head, c2)
 		b.nodes[head] = node{kind: "choice", nexts: []int{body, k}}
 		return b.effects(effectsOf(x.X), head, c)
 	}
 	return head
+}
+
+// ---------------------------------------------------------------------------------------------------------------
+// post-processing of a CFG: run-at-most-once check, removal of skip nodes
+
+func succsOf(n node) []int {
+	switch n.kind {
+	case "comm":
+		var out []int
+		for _, c := range n.cases {
+			out = append(out, c.next)
+		}
+		if n.dflt >= 0 {
+			out = append(out, n.dflt)
+		}
+		return out
+	case "close":
+		return []int{n.next}
+	case "choice":
+		return n.nexts
+	case "range":
+		return []int{n.next, n.next2}
+	}
+	return nil
+}
+
+// onCycle: can control come back to node i
+func onCycle(nodes []node, i int) bool {
+	seen := map[int]bool{}
+	work := append([]int{}, succsOf(nodes[i])...)
+	for len(work) > 0 {
+		x := work[len(work)-1]
+		work = work[:len(work)-1]
+		if x == i {
+			return true
+		}
+		if x < 0 || x >= len(nodes) || seen[x] {
+			continue
+		}
+		seen[x] = true
+		work = append(work, succsOf(nodes[x])...)
+	}
+	return false
+}
+
+// fuseBranches: also fuse data-dependent branches into the communication that precedes them (flag -fuse)
+var fuseBranches = true
+
+// compress removes skip nodes (`choice` with one distinct successor) that carry no mark, drops unreachable nodes and
+// renumbers; the entry and the marks are mapped along. Halt nodes keep their relative order.
+func compress(nodes []node, entry int, marks map[string][]int, keep []int) ([]node, int, map[string][]int, []int) {
+	protected := map[int]bool{}
+	for _, ns := range marks {
+		for _, n := range ns {
+			protected[n] = true
+		}
+	}
+	distinct := func(xs []int) []int {
+		var out []int
+		seen := map[int]bool{}
+		for _, x := range xs {
+			if !seen[x] {
+				seen[x] = true
+				out = append(out, x)
+			}
+		}
+		return out
+	}
+	var resolve func(x int, depth int) int
+	resolve = func(x int, depth int) int {
+		for depth < len(nodes)+1 {
+			n := nodes[x]
+			if n.kind != "choice" || protected[x] {
+				return x
+			}
+			var ds []int
+			for _, y := range n.nexts {
+				ds = append(ds, y)
+			}
+			ds = distinct(ds)
+			if len(ds) != 1 || ds[0] == x {
+				return x
+			}
+			x = ds[0]
+			depth++
+		}
+		return x
+	}
+	for changed := true; changed; {
+		changed = false
+		for i := range nodes {
+			n := &nodes[i]
+			upd := func(p *int) {
+				if *p >= 0 {
+					if r := resolve(*p, 0); r != *p {
+						*p = r
+						changed = true
+					}
+				}
+			}
+			switch n.kind {
+			case "comm":
+				for j := range n.cases {
+					upd(&n.cases[j].next)
+				}
+				upd(&n.dflt)
+			case "close":
+				upd(&n.next)
+			case "range":
+				upd(&n.next)
+				upd(&n.next2)
+			case "choice":
+				for j := range n.nexts {
+					upd(&n.nexts[j])
+				}
+				if d := distinct(n.nexts); len(d) != len(n.nexts) {
+					n.nexts = d
+					changed = true
+				}
+			}
+		}
+	}
+	entry = resolve(entry, 0)
+	// fuse data-dependent branches into the communication that precedes them: a select case (or a branch) that leads to an
+	// unmarked `choice [a, b, …]` becomes one case (branch) per successor. The branch is local and invisible to the other
+	// goroutines, so this only removes the intermediate program counter.
+	fusable := func(x int, self int) bool {
+		if x < 0 || x == self || protected[x] || nodes[x].kind != "choice" || len(nodes[x].nexts) == 0 {
+			return false
+		}
+		for _, y := range nodes[x].nexts {
+			if y == x {
+				return false
+			}
+		}
+		return true
+	}
+	for round := 0; fuseBranches && round < 4*len(nodes)+4; round++ {
+		changed := false
+		for i := range nodes {
+			n := &nodes[i]
+			switch n.kind {
+			case "comm":
+				var cs []comm
+				for _, c := range n.cases {
+					if fusable(c.next, i) {
+						for _, y := range nodes[c.next].nexts {
+							cs = append(cs, comm{c.send, c.ch, y})
+						}
+						changed = true
+					} else {
+						cs = append(cs, c)
+					}
+				}
+				// drop duplicates
+				var ds []comm
+				for _, c := range cs {
+					dup := false
+					for _, d := range ds {
+						if d == c {
+							dup = true
+						}
+					}
+					if !dup {
+						ds = append(ds, c)
+					}
+				}
+				n.cases = ds
+			case "choice":
+				var ns []int
+				for _, x := range n.nexts {
+					if fusable(x, i) {
+						ns = append(ns, nodes[x].nexts...)
+						changed = true
+					} else {
+						ns = append(ns, x)
+					}
+				}
+				n.nexts = distinct(ns)
+			}
+		}
+		if !changed {
+			break
+		}
+	}
+	// reachable nodes
+	reach := map[int]bool{}
+	work := []int{entry}
+	for len(work) > 0 {
+		x := work[len(work)-1]
+		work = work[:len(work)-1]
+		if reach[x] {
+			continue
+		}
+		reach[x] = true
+		work = append(work, succsOf(nodes[x])...)
+	}
+	for _, h := range keep {
+		reach[h] = true
+	}
+	remap := map[int]int{}
+	var out []node
+	for i, n := range nodes {
+		if reach[i] {
+			remap[i] = len(out)
+			out = append(out, n)
+		}
+	}
+	for i := range out {
+		n := &out[i]
+		switch n.kind {
+		case "comm":
+			cs := make([]comm, len(n.cases))
+			for j, c := range n.cases {
+				cs[j] = comm{c.send, c.ch, remap[c.next]}
+			}
+			n.cases = cs
+			if n.dflt >= 0 {
+				n.dflt = remap[n.dflt]
+			}
+		case "close":
+			n.next = remap[n.next]
+		case "range":
+			n.next, n.next2 = remap[n.next], remap[n.next2]
+		case "choice":
+			ns := make([]int, len(n.nexts))
+			for j, x := range n.nexts {
+				ns[j] = remap[x]
+			}
+			n.nexts = ns
+		}
+	}
+	newMarks := map[string][]int{}
+	for nm, ns := range marks {
+		for _, x := range ns {
+			if reach[x] {
+				newMarks[nm] = append(newMarks[nm], remap[x])
+			}
+		}
+	}
+	var newKeep []int
+	for _, h := range keep {
+		newKeep = append(newKeep, remap[h])
+	}
+	return out, remap[entry], newMarks, newKeep
 }
 
 // ---------------------------------------------------------------------------------------------------------------
@@ -765,6 +2051,8 @@ func leanNode(n node) string {
 		return fmt.Sprintf("Node.comm [%s] %s", strings.Join(cs, ", "), d)
 	case "close":
 		return fmt.Sprintf("Node.close %d %d", n.ch, n.next)
+	case "range":
+		return fmt.Sprintf("Node.recvOrClosed %d %d %d", n.ch, n.next, n.next2)
 	case "choice":
 		var ns []string
 		for _, x := range n.nexts {
@@ -779,6 +2067,7 @@ func main() {
 	repo := flag.String("repo", "/repo", "library source")
 	out := flag.String("out", "", "generated Lean file")
 	what := flag.String("what", "skel", "skel: channel skeletons and census; timing: timing facts")
+	flag.BoolVar(&fuseBranches, "fuse", true, "multi-goroutine targets: fuse data-dependent branches into the preceding communication (fewer program counters)")
 	flag.Parse()
 	p := load(*repo)
 	eff := p.effectful()
@@ -835,12 +2124,12 @@ func main() {
 				os.Exit(2)
 			}
 		}
-		b := &builder{p: p, eff: eff, inline: map[string]bool{}, opaque: map[string]bool{}, tname: t.Name}
+		b := &builder{p: p, eff: eff, inline: map[string]bool{}, opaque: map[string]bool{}, tname: t.Name, marks: map[string][]int{}}
 		for _, i := range t.Inline {
 			b.inline[i] = true
 		}
 		halt := b.add(node{kind: "halt"})
-		entry := b.block(body, halt, ctx{brk: -1, cont: -1, ret: halt, labels: map[string][2]int{}})
+		entry := b.block(body, halt, newCtx(halt))
 		var op []string
 		for k := range b.opaque {
 			op = append(op, k)
@@ -850,6 +2139,20 @@ func main() {
 	}
 
 	census, makes := p.census()
+
+	// the multi-goroutine targets (they may add channels: the legacy numbering above stays a prefix)
+	legacyChans := append([]string{}, chanNames...)
+	known := map[string]bool{}
+	for nm := range makes {
+		known[nm] = true
+	}
+	canPanic := p.reaches("panic")
+	var pipes []*pipeOut
+	for _, t := range pipeTargets {
+		pipes = append(pipes, p.pipeline(t, eff, canPanic, known))
+	}
+	allChans := append([]string{}, chanNames...)
+	chanNames = legacyChans
 
 	sb.WriteString("/-- channel numbering used by the skeletons below -/\n")
 	sb.WriteString("def chanNames : List String := [")
@@ -914,6 +2217,10 @@ func main() {
 			sb.WriteString(strconv.Quote(o))
 		}
 		sb.WriteString("]\n\n")
+	}
+
+	for _, po := range pipes {
+		po.emit(&sb, p, allChans, makes)
 	}
 
 	for _, nm := range []string{"leaderUpdateCh", "replUpdateCh", "stopCh", "fsmRestoredCh", "snapTakenCh"} {
@@ -1237,4 +2544,670 @@ func (p *pkg) timerFacts(sb *strings.Builder) {
 		}
 		fmt.Fprintf(sb, "/-- the body of `%s`, whitespace normalised -/\ndef %s : String := %s\n\n", fn.key, fn.lean, strconv.Quote(p.src(fd.Body)))
 	}
+}
+
+// ---------------------------------------------------------------------------------------------------------------
+// multi-goroutine targets: one episode of a function that starts goroutines (go), defers, ranges over channels,
+// declares local channels and calls local closures
+
+type pipeTarget struct {
+	Name    string   // Lean prefix of the channel names
+	Func    string   // recv.func
+	From    string   // the episode starts at the statement (of the body of the outer `for`) that declares this local channel
+	Main    string   // Lean name of the process of the calling goroutine
+	GoNames []string // Lean names of the processes of the go statements, in source order (call-site path)
+	Inline  []string
+	Marks   []mark
+	PanicAt []string // variant P: calls to these functions may panic
+	Tag     *tagSpec // messages of this local channel carry an error that sender and receiver branch on
+	Forks   []string // statements `v := …` after which the truth value of `v != nil` is tracked
+}
+
+var pipeTargets = []pipeTarget{{
+	Name: "pipe", Func: "replication.replicate", From: "resultCh",
+	Main: "pipeReader", GoNames: []string{"pipeWriter", "pipeDrainerStop", "pipeDrainerStale"},
+	Inline: []string{"checkLeaderUpdate", "onLeaderUpdate", "notifyLdr", "onAppendEntriesResp"},
+	Marks: []mark{
+		{"write", "err := r.writeAppendEntriesReq(c, req, true)", false},
+		{"recoverSend", "resultCh <- result{0, recoverErr(v)}", true},
+	},
+	PanicAt: []string{"writeAppendEntriesReq"},
+	Tag:     &tagSpec{Chan: "resultCh", Field: "err"},
+	Forks:   []string{"err := r.writeAppendEntriesReq(c, req, true)"},
+}}
+
+// reaches: the functions that can reach a call of the builtin `name` (by callee name, over-approximation)
+func (p *pkg) reaches(name string) map[string]bool {
+	direct := map[string]bool{}
+	calls := map[string]map[string]bool{}
+	for key, fd := range p.funcs {
+		calls[key] = map[string]bool{}
+		ast.Inspect(fd.Body, func(n ast.Node) bool {
+			if x, ok := n.(*ast.CallExpr); ok {
+				if id, ok := x.Fun.(*ast.Ident); ok && id.Name == name {
+					direct[key] = true
+				}
+				if nm := localCallee(x); nm != "" {
+					calls[key][nm] = true
+				}
+			}
+			return true
+		})
+	}
+	out := map[string]bool{}
+	for k := range direct {
+		out[k] = true
+	}
+	for changed := true; changed; {
+		changed = false
+		for key := range p.funcs {
+			if out[key] {
+				continue
+			}
+			for nm := range calls[key] {
+				for _, ck := range p.byNm[nm] {
+					if out[ck] {
+						out[key] = true
+						changed = true
+					}
+				}
+			}
+		}
+	}
+	return out
+}
+
+type pipeProc struct {
+	lean, title string
+	nodes       []node
+	entry       int
+	marks       map[string][]int
+	halts       []int
+	plain       []node // the same control-flow graph before the data-dependent branches are fused (for the reader of the file)
+	plainEntry  int
+}
+
+// prettyNode: a node with channel names, for the readable listing
+func prettyNode(n node, names []string) string {
+	nm := func(c int) string {
+		if c >= 0 && c < len(names) {
+			return names[c]
+		}
+		return strconv.Itoa(c)
+	}
+	switch n.kind {
+	case "comm":
+		var cs []string
+		for _, c := range n.cases {
+			op := "recv "
+			if c.send {
+				op = "send "
+			}
+			cs = append(cs, fmt.Sprintf("%s%s → %d", op, nm(c.ch), c.next))
+		}
+		if n.dflt >= 0 {
+			cs = append(cs, fmt.Sprintf("default → %d", n.dflt))
+		}
+		return "select { " + strings.Join(cs, " | ") + " }"
+	case "close":
+		return fmt.Sprintf("close %s → %d", nm(n.ch), n.next)
+	case "range":
+		return fmt.Sprintf("range %s: item → %d, closed and empty → %d", nm(n.ch), n.next, n.next2)
+	case "choice":
+		var ns []string
+		for _, x := range n.nexts {
+			ns = append(ns, strconv.Itoa(x))
+		}
+		return "branch → " + strings.Join(ns, " | ")
+	}
+	return "return"
+}
+
+func cloneNodes(ns []node) []node {
+	out := make([]node, len(ns))
+	for i, n := range ns {
+		n.cases = append([]comm{}, n.cases...)
+		n.nexts = append([]int{}, n.nexts...)
+		out[i] = n
+	}
+	return out
+}
+
+type pipeVariant struct {
+	procs  []pipeProc
+	opaque []string
+	starts []string // start channel of every spawned process, in the order of procs[1:]
+}
+
+type pipeOut struct {
+	t          pipeTarget
+	normal, pv pipeVariant
+	prefix     []string
+	localKinds map[string]string
+	from, to   int // source lines of the episode
+}
+
+func pathKey(path string) []int {
+	var out []int
+	for _, m := range regexp.MustCompile(`[0-9]+`).FindAllString(path, -1) {
+		n, _ := strconv.Atoi(m)
+		out = append(out, n)
+	}
+	return out
+}
+
+func lessPath(a, b string) bool {
+	ka, kb := pathKey(a), pathKey(b)
+	for i := 0; i < len(ka) && i < len(kb); i++ {
+		if ka[i] != kb[i] {
+			return ka[i] < kb[i]
+		}
+	}
+	return len(ka) < len(kb)
+}
+
+func (p *pkg) pipeline(t pipeTarget, eff, canPanic, known map[string]bool) *pipeOut {
+	fd := p.funcs[t.Func]
+	if fd == nil {
+		fmt.Fprintf(os.Stderr, "astfacts: target %s not found\n", t.Func)
+		os.Exit(2)
+	}
+	fset := p.fset
+	// locate the outer loop and the first statement of the episode
+	declares := func(st ast.Stmt, name string) bool {
+		found := false
+		switch x := st.(type) {
+		case *ast.DeclStmt:
+			if gd, ok := x.Decl.(*ast.GenDecl); ok && gd.Tok == token.VAR {
+				for _, sp := range gd.Specs {
+					vs := sp.(*ast.ValueSpec)
+					for i, nm := range vs.Names {
+						if nm.Name == name && i < len(vs.Values) {
+							if _, ok := makeChanCap(vs.Values[i]); ok {
+								found = true
+							}
+						}
+					}
+				}
+			}
+		case *ast.AssignStmt:
+			if x.Tok == token.DEFINE && len(x.Lhs) == len(x.Rhs) {
+				for i, l := range x.Lhs {
+					if id, ok := l.(*ast.Ident); ok && id.Name == name {
+						if _, ok := makeChanCap(x.Rhs[i]); ok {
+							found = true
+						}
+					}
+				}
+			}
+		}
+		return found
+	}
+	var outer *ast.ForStmt
+	outerIdx, fromIdx := -1, -1
+	for i, st := range fd.Body.List {
+		fs, ok := st.(*ast.ForStmt)
+		if !ok {
+			continue
+		}
+		for j, st2 := range fs.Body.List {
+			if declares(st2, t.From) {
+				if outer != nil {
+					fail(fset, st2.Pos(), "second declaration of the local channel %s", t.From)
+				}
+				outer, outerIdx, fromIdx = fs, i, j
+			}
+		}
+	}
+	if outer == nil {
+		fail(fset, fd.Pos(), "no `for` statement at the top level of %s declares the local channel %s in its body", t.Func, t.From)
+	}
+	if outer.Cond != nil || outer.Init != nil || outer.Post != nil {
+		fail(fset, outer.Pos(), "the outer loop of %s is not `for {…}`", t.Func)
+	}
+	if outerIdx != len(fd.Body.List)-1 {
+		fail(fset, fd.Body.List[outerIdx+1].Pos(), "statements after the outer loop of %s are not supported", t.Func)
+	}
+	// what precedes the episode: no channel operation except through calls (listed: `<Name>_prefix_calls`)
+	var prefixStmts []ast.Stmt
+	prefixStmts = append(prefixStmts, fd.Body.List[:outerIdx]...)
+	prefixStmts = append(prefixStmts, outer.Body.List[:fromIdx]...)
+	prefixCalls := map[string]bool{}
+	for _, st := range prefixStmts {
+		ast.Inspect(st, func(n ast.Node) bool {
+			switch x := n.(type) {
+			case *ast.SendStmt, *ast.SelectStmt, *ast.GoStmt, *ast.DeferStmt, *ast.FuncLit:
+				fail(fset, n.Pos(), "before the episode of %s: %T is not supported there", t.Func, n)
+			case *ast.UnaryExpr:
+				if x.Op == token.ARROW {
+					fail(fset, n.Pos(), "before the episode of %s: a receive is not supported there", t.Func)
+				}
+			case *ast.RangeStmt:
+				if known[chanName(x.X)] {
+					fail(fset, n.Pos(), "before the episode of %s: range over a channel is not supported there", t.Func)
+				}
+			case *ast.CallExpr:
+				nm := localCallee(x)
+				if id, ok := x.Fun.(*ast.Ident); ok && (id.Name == "close" || id.Name == "recover") {
+					fail(fset, n.Pos(), "before the episode of %s: %s(…) is not supported there", t.Func, id.Name)
+				}
+				for _, key := range p.byNm[nm] {
+					if eff[key] {
+						prefixCalls[nm] = true
+					}
+				}
+			}
+			return true
+		})
+	}
+	out := &pipeOut{t: t, localKinds: map[string]string{}}
+	for k := range prefixCalls {
+		out.prefix = append(out.prefix, k)
+	}
+	sort.Strings(out.prefix)
+	out.from = fset.Position(outer.Body.List[fromIdx].Pos()).Line
+	out.to = fset.Position(outer.Body.Rbrace).Line
+
+	build := func(panicMode bool) pipeVariant {
+		sh := &shared{allowGo: true, panicMode: panicMode, panicAt: map[string]bool{}, canPanic: canPanic, marks: t.Marks,
+			localKinds: map[string]string{}, localIdent: map[string]bool{}, closIdent: map[string]bool{}, knownChans: known,
+			declStmt: map[ast.Stmt]bool{}, usedPanic: map[string]bool{}, tag: t.Tag, tagged: map[string]bool{},
+			forks: map[string]bool{}, usedFork: map[string]bool{}, fd: fd}
+		for _, nm := range t.PanicAt {
+			sh.panicAt[nm] = true
+		}
+		for _, f := range t.Forks {
+			sh.forks[f] = true
+		}
+		b := &builder{p: p, eff: eff, inline: map[string]bool{}, opaque: map[string]bool{}, tname: t.Name, sh: sh, marks: map[string][]int{}}
+		for _, i := range t.Inline {
+			b.inline[i] = true
+		}
+		b.curLine = out.to
+		haltRet := b.add(node{kind: "halt"})
+		haltNext := b.add(node{kind: "halt"})
+		c := newCtx(haltRet)
+		c.cont = haltNext
+		c.env = (*scope)(nil).child()
+		c.fn = fd.Name.Name
+		entry := b.block(outer.Body.List[fromIdx:], haltNext, c)
+
+		// the local channels must not escape: every use of their identifiers is a channel operation, len/cap, or an
+		// argument of an inlined function whose parameter is of channel type (checked at the binding)
+		var stack []ast.Node
+		ast.Inspect(fd.Body, func(n ast.Node) bool {
+			if n == nil {
+				stack = stack[:len(stack)-1]
+				return true
+			}
+			if id, ok := n.(*ast.Ident); ok && sh.localIdent[id.Name] && len(stack) > 0 {
+				good := false
+				switch pa := stack[len(stack)-1].(type) {
+				case *ast.SelectorExpr:
+					good = pa.Sel == id
+				case *ast.UnaryExpr:
+					good = pa.Op == token.ARROW
+				case *ast.SendStmt:
+					good = pa.Chan == ast.Expr(id)
+				case *ast.RangeStmt:
+					good = pa.X == ast.Expr(id)
+				case *ast.ValueSpec:
+					for i, nm := range pa.Names {
+						if nm == id && i < len(pa.Values) {
+							_, good = makeChanCap(pa.Values[i])
+						}
+					}
+				case *ast.AssignStmt:
+					for i, l := range pa.Lhs {
+						if l == ast.Expr(id) && pa.Tok == token.DEFINE && i < len(pa.Rhs) && len(pa.Lhs) == len(pa.Rhs) {
+							_, good = makeChanCap(pa.Rhs[i])
+						}
+					}
+				case *ast.CallExpr:
+					nm := calleeName(pa)
+					if fid, ok := pa.Fun.(*ast.Ident); ok && (fid.Name == "close" || fid.Name == "len" || fid.Name == "cap") {
+						good = true
+					} else if fid, ok := pa.Fun.(*ast.Ident); ok && sh.closIdent[fid.Name] {
+						good = true
+					} else if b.inline[nm] {
+						good = true
+					}
+				}
+				if !good {
+					fail(fset, id.Pos(), "local channel %s escapes (used in a way the translator does not track)", id.Name)
+				}
+			}
+			stack = append(stack, n)
+			return true
+		})
+		for _, nm := range t.PanicAt {
+			if !sh.usedPanic[nm] {
+				fmt.Fprintf(os.Stderr, "astfacts: declared panic site %s is not called in the episode of %s\n", nm, t.Func)
+				os.Exit(2)
+			}
+		}
+
+		for _, f := range t.Forks {
+			if !sh.usedFork[f] {
+				fmt.Fprintf(os.Stderr, "astfacts: fork statement %q not found in the episode of %s\n", f, t.Func)
+				os.Exit(2)
+			}
+		}
+		if t.Tag != nil && len(sh.tagged) == 0 {
+			fmt.Fprintf(os.Stderr, "astfacts: tagged channel %s not declared in the episode of %s\n", t.Tag.Chan, t.Func)
+			os.Exit(2)
+		}
+		// code compiled once per truth value of a tracked condition may contain go statements: keep those whose go
+		// statement can be reached; the same go statement (same inlining path) reachable twice is not supported
+		reachOf := map[*builder]map[int]bool{}
+		reachFrom := func(bb *builder, entry int) {
+			r := map[int]bool{}
+			work := []int{entry}
+			for len(work) > 0 {
+				x := work[len(work)-1]
+				work = work[:len(work)-1]
+				if x < 0 || r[x] {
+					continue
+				}
+				r[x] = true
+				work = append(work, succsOf(bb.nodes[x])...)
+			}
+			reachOf[bb] = r
+		}
+		reachFrom(b, entry)
+		var live []*spawnOut
+		for changed := true; changed; {
+			changed = false
+			for _, sp := range sh.spawned {
+				if reachOf[sp.b] != nil {
+					continue
+				}
+				if r := reachOf[sp.by]; r != nil && r[sp.at] {
+					reachFrom(sp.b, sp.entry)
+					live = append(live, sp)
+					changed = true
+				}
+			}
+		}
+		seenPath := map[string]bool{}
+		for _, sp := range live {
+			if seenPath[sp.path] {
+				fail(fset, sp.pos, "the go statement (inlining path %s) is reachable in two copies of code compiled per tracked condition: not supported", sp.path)
+			}
+			seenPath[sp.path] = true
+		}
+		sh.spawned = live
+		sort.SliceStable(sh.spawned, func(i, j int) bool { return lessPath(sh.spawned[i].path, sh.spawned[j].path) })
+		if len(sh.spawned) != len(t.GoNames) {
+			fmt.Fprintf(os.Stderr, "astfacts: %s: %d go statements (after inlining) but %d names declared\n", t.Func, len(sh.spawned), len(t.GoNames))
+			os.Exit(2)
+		}
+		var v pipeVariant
+		suffix := ""
+		if panicMode {
+			suffix = "P"
+		}
+		type raw struct {
+			lean, title string
+			b           *builder
+			entry       int
+			halts       []int
+		}
+		raws := []raw{{t.Main + suffix, fmt.Sprintf("the goroutine that called `%s`, lines %d–%d", t.Func, out.from, out.to), b, entry, []int{haltRet, haltNext}}}
+		for i, sp := range sh.spawned {
+			raws = append(raws, raw{t.GoNames[i] + suffix, fmt.Sprintf("the goroutine started by the go statement at line %d of `%s` (inlining path %q)", fset.Position(sp.pos).Line, t.Func, sp.path), sp.b, sp.entry, []int{0}})
+			v.starts = append(v.starts, sp.start)
+		}
+		for _, r := range raws {
+			for i, n := range r.b.nodes {
+				if n.once != "" && onCycle(r.b.nodes, i) {
+					fmt.Fprintf(os.Stderr, "astfacts: %s: %s can run more than once in one episode (it lies on a cycle of the control-flow graph): one name would stand for several channels / goroutines\n", t.Func, n.once)
+					os.Exit(2)
+				}
+			}
+			saved := fuseBranches
+			fuseBranches = false
+			plain, plainEntry, _, _ := compress(cloneNodes(r.b.nodes), r.entry, r.b.marks, r.halts)
+			fuseBranches = saved
+			nodes, e, marks, halts := compress(cloneNodes(r.b.nodes), r.entry, r.b.marks, r.halts)
+			v.procs = append(v.procs, pipeProc{r.lean, r.title, nodes, e, marks, halts, plain, plainEntry})
+		}
+		for _, m := range t.Marks {
+			n := 0
+			for _, pr := range v.procs {
+				n += len(pr.marks[m.Name])
+			}
+			if n == 0 && !(m.Name == "recoverSend" && !panicMode) {
+				fmt.Fprintf(os.Stderr, "astfacts: mark %s (%q) not found in the episode of %s\n", m.Name, m.Text, t.Func)
+				os.Exit(2)
+			}
+		}
+		for k := range b.opaque {
+			v.opaque = append(v.opaque, k)
+		}
+		sort.Strings(v.opaque)
+		for k, c := range sh.localKinds {
+			out.localKinds[k] = c
+		}
+		return v
+	}
+	out.normal = build(false)
+	out.pv = build(true)
+	return out
+}
+
+func leanIdent(s string) string {
+	var sb strings.Builder
+	for _, r := range s {
+		if r >= 'a' && r <= 'z' || r >= 'A' && r <= 'Z' || r >= '0' && r <= '9' || r == '_' {
+			sb.WriteRune(r)
+		} else {
+			sb.WriteRune('_')
+		}
+	}
+	return sb.String()
+}
+
+func (po *pipeOut) emit(sb *strings.Builder, p *pkg, allChans []string, makes map[string][]string) {
+	t := po.t
+	fmt.Fprintf(sb, "/-! ## one episode of `%s` (lines %d–%d): the statements from the declaration of the local channel `%s` to the end\n", t.Func, po.from, po.to, t.From)
+	fmt.Fprintf(sb, "of the body of the outer `for`. What precedes them in the function contains no channel operation, go, defer or closure\n")
+	fmt.Fprintf(sb, "(checked by the translator) except through the calls listed in `%s_prefix_calls`.\n", t.Name)
+	sb.WriteString("* the calling goroutine: `halt` number 0 = `return`, `halt` number 1 = the end of the loop body / `continue` (next iteration);\n")
+	sb.WriteString("* every go statement (per inlined call site of the closure that contains it) is a process of its own; it waits at its\n")
+	sb.WriteString("  entry for the spawn signal: a private channel `start:…` that the spawner CLOSES at the go statement (a go statement\n")
+	sb.WriteString("  executed twice would be a double close, i.e. `bad`); go statements and `make(chan)` sites were checked not to lie on a\n")
+	sb.WriteString("  cycle of the control-flow graph, so one name stands for one channel / goroutine;\n")
+	sb.WriteString("* deferred function literals run at every return of their function; `recover()` returns nil (variant without suffix);\n")
+	sb.WriteString("  in variant `P` the calls marked as panic sites may instead jump into the deferred function with `recover() != nil`;\n")
+	sb.WriteString("* `for range ch` is `recvOrClosed`; closures bound to local variables are inlined at every call;\n")
+	sb.WriteString("* local channels are named `function.variable@call-site-line…`; channel parameters of inlined functions are bound to the\n")
+	sb.WriteString("  channel the argument denotes; explicit `panic(…)` statements of inlined callees are treated as no-ops;\n")
+	if t.Tag != nil {
+		fmt.Fprintf(sb, "* the messages of the local channel `%s` carry an error (field `%s`) that sender and receiver branch on: the channel is\n", t.Tag.Chan, t.Tag.Field)
+		fmt.Fprintf(sb, "  split in two halves, `name` for `%s == nil` and `name#%s` for `%s != nil` (same capacity each; the order between the\n", t.Tag.Field, t.Tag.Field, t.Tag.Field)
+		fmt.Fprintf(sb, "  halves is lost: an over-approximation), `close` closes both, `for range` drains the first then the second;\n")
+	}
+	sb.WriteString("* tracked conditions (`x != nil` after a fork statement / a receive from a split channel / a call of a local closure that\n")
+	sb.WriteString("  returns an error, and inside `if x != nil {…}`): the rest of the block is compiled once per truth value, so `if x != nil`\n")
+	sb.WriteString("  takes the branch that matches; every other branch is a free choice;\n")
+	for _, f := range t.Forks {
+		fmt.Fprintf(sb, "  fork statement: `%s`;\n", f)
+	}
+	sb.WriteString("* skip nodes are removed and (flag -fuse, default) a data-dependent branch that follows a communication is fused into it:\n")
+	sb.WriteString("  `comm [⟨recv c, n⟩]` with `n = choice [a, b]` becomes `comm [⟨recv c, a⟩, ⟨recv c, b⟩]` (the branch is local, invisible to the\n")
+	sb.WriteString("  other goroutines; this halves the number of reachable states); the comment of a node gives its number and source line. -/\n\n")
+
+	fmt.Fprintf(sb, "/-- channel numbering of the skeletons of this section (`chanNames` is a prefix) -/\n")
+	fmt.Fprintf(sb, "def %sChanNames : List String := [", t.Name)
+	for i, n := range allChans {
+		if i > 0 {
+			sb.WriteString(", ")
+		}
+		sb.WriteString(strconv.Quote(n))
+	}
+	sb.WriteString("]\n\n")
+	fmt.Fprintf(sb, "/-- their kinds: `make(chan …)` sites; a `start:…` channel is only ever closed (by the go statement) -/\n")
+	fmt.Fprintf(sb, "def %sKinds : List Kind := [", t.Name)
+	for i, n := range allChans {
+		if i > 0 {
+			sb.WriteString(", ")
+		}
+		capStr, local := po.localKinds[n]
+		switch {
+		case n == "timer":
+			sb.WriteString(".external")
+			continue
+		case local && capStr == "start":
+			sb.WriteString(".sync")
+			continue
+		case !local:
+			caps := makes[n]
+			if len(caps) == 0 {
+				fmt.Fprintf(os.Stderr, "astfacts: no make(chan) site found for channel %s\n", n)
+				os.Exit(2)
+			}
+			capStr = caps[0]
+			for _, c := range caps {
+				if c != capStr {
+					fmt.Fprintf(os.Stderr, "astfacts: channel %s is made with different capacities %v\n", n, caps)
+					os.Exit(2)
+				}
+			}
+		}
+		switch capStr {
+		case "0":
+			sb.WriteString(".sync")
+		case "dynamic":
+			fmt.Fprintf(os.Stderr, "astfacts: channel %s has a non-constant capacity\n", n)
+			os.Exit(2)
+		default:
+			sb.WriteString(".buffered " + capStr)
+		}
+	}
+	sb.WriteString("]\n\n")
+
+	// Lean names of the local channels
+	startOf := map[string]string{}
+	for i, st := range po.normal.starts {
+		startOf[st] = t.GoNames[i]
+	}
+	groups := map[string][]string{}
+	for n := range po.localKinds {
+		if _, ok := startOf[n]; ok {
+			continue
+		}
+		base := n
+		if i := strings.Index(n, "@"); i >= 0 {
+			base = n[:i]
+		}
+		groups[base] = append(groups[base], n)
+	}
+	leanOf := map[string]string{}
+	for base, ns := range groups {
+		sort.Slice(ns, func(i, j int) bool { return lessPath(ns[i], ns[j]) })
+		short := base
+		if i := strings.LastIndex(base, "."); i >= 0 {
+			short = base[i+1:]
+		}
+		for i, n := range ns {
+			if len(ns) == 1 {
+				leanOf[n] = fmt.Sprintf("%sCh_%s", t.Name, leanIdent(short))
+			} else {
+				leanOf[n] = fmt.Sprintf("%sCh_%s_%d", t.Name, leanIdent(short), i+1)
+			}
+		}
+	}
+	for st, g := range startOf {
+		leanOf[st] = fmt.Sprintf("%sCh_start_%s", t.Name, g)
+	}
+	for i, n := range allChans {
+		if ln, ok := leanOf[n]; ok {
+			fmt.Fprintf(sb, "/-- the channel `%s` -/\ndef %s : Nat := %d\n", n, ln, i)
+		}
+	}
+	sb.WriteString("\n")
+
+	emitVariant := func(v pipeVariant, what string) {
+		for _, pr := range v.procs {
+			fmt.Fprintf(sb, "/-- %s: %s", what, pr.title)
+			if fuseBranches {
+				fmt.Fprintf(sb, ".\nReadable form, before the data-dependent branches (`choice`) are fused into the communication that precedes them\n")
+				fmt.Fprintf(sb, "(own numbering; entry := %d; `L` = source line):\n```\n", pr.plainEntry)
+				for i, n := range pr.plain {
+					extra := ""
+					if n.mark != "" {
+						extra = "  mark " + n.mark
+					}
+					txt := prettyNode(n, allChans)
+					if len(pr.halts) == 2 && n.kind == "halt" && i == 1 {
+						txt = "end of the body of the outer loop (next iteration)"
+					}
+					fmt.Fprintf(sb, "  %2d  L%-3d  %s%s\n", i, n.line, txt, extra)
+				}
+				sb.WriteString("```")
+			}
+			sb.WriteString(" -/\n")
+			fmt.Fprintf(sb, "def %s : Proc := { name := %s, entry := %d, code := [\n", pr.lean, strconv.Quote(pr.lean), pr.entry)
+			for i, n := range pr.nodes {
+				sep := ","
+				if i == len(pr.nodes)-1 {
+					sep = ""
+				}
+				extra := ""
+				if n.mark != "" {
+					extra = "  mark " + n.mark
+				}
+				fmt.Fprintf(sb, "    %s%s  -- %d  L%d%s\n", leanNode(n), sep, i, n.line, extra)
+			}
+			sb.WriteString("  ] }\n")
+			var mnames []string
+			for m := range pr.marks {
+				mnames = append(mnames, m)
+			}
+			sort.Strings(mnames)
+			for _, m := range mnames {
+				var text string
+				for _, mk := range t.Marks {
+					if mk.Name == m {
+						text = mk.Text
+						if mk.After {
+							text = "just after `" + text + "`"
+						} else {
+							text = "about to execute / executing `" + text + "`"
+						}
+					}
+				}
+				fmt.Fprintf(sb, "/-- program counters of `%s` %s -/\ndef %s_at_%s : List Nat := [", pr.lean, text, pr.lean, m)
+				for i, x := range pr.marks[m] {
+					if i > 0 {
+						sb.WriteString(", ")
+					}
+					sb.WriteString(strconv.Itoa(x))
+				}
+				sb.WriteString("]\n")
+			}
+			if len(pr.halts) == 2 {
+				fmt.Fprintf(sb, "/-- `%s` has returned from the function -/\ndef %s_ret : Nat := %d\n", pr.lean, pr.lean, pr.halts[0])
+				fmt.Fprintf(sb, "/-- `%s` has reached the end of the body of the outer loop (next iteration) -/\ndef %s_next : Nat := %d\n", pr.lean, pr.lean, pr.halts[1])
+			}
+			sb.WriteString("\n")
+		}
+	}
+	emitVariant(po.normal, "panic-free skeleton of "+t.Func)
+	emitVariant(po.pv, "variant P (panic sites: "+strings.Join(t.PanicAt, ", ")+") of "+t.Func)
+
+	strList := func(xs []string) string {
+		var qs []string
+		for _, x := range xs {
+			qs = append(qs, strconv.Quote(x))
+		}
+		return "[" + strings.Join(qs, ", ") + "]"
+	}
+	fmt.Fprintf(sb, "/-- callees inside the episode that can reach a channel operation and are NOT inlined -/\n")
+	fmt.Fprintf(sb, "def %s_opaque : List String := %s\n\n", t.Name, strList(po.normal.opaque))
+	fmt.Fprintf(sb, "/-- callees BEFORE the episode (probe loop of `%s`) that can reach a channel operation; nothing else there can -/\n", t.Func)
+	fmt.Fprintf(sb, "def %s_prefix_calls : List String := %s\n\n", t.Name, strList(po.prefix))
+	fmt.Fprintf(sb, "/-- the calls that may panic in variant P (each can reach a `panic(…)` call: checked by the translator) -/\n")
+	fmt.Fprintf(sb, "def %s_panic_sites : List String := %s\n\n", t.Name, strList(t.PanicAt))
 }
